@@ -18,7 +18,7 @@ INFO = {
                "and builds the function through FunctionDefinitions::create on every successful path, and create "
                "rejects too few / too many arguments and is the only caller of a factory; (e) get_processor rejects "
                "output options that do not belong to the style, and the header-less csv error is raised before "
-               "anything is written (C15-ROW instances). Every stage hands start() on at once, so the sink's header-less csv error is raised before any input is read. For each of the registered functions the declared minimum number of arguments is enough for its implementation to produce a value and no index beyond the declared maximum is read; a path expression that stops in the middle of a step after a complete step is rejected. No option parser returns Ok unless the reader has reported the end of the option text (--sort-by included). A /name/ reference cut before its closing slash is rejected.",
+               "anything is written (C15-ROW instances). Every stage hands start() on at once, so the sink's header-less csv error is raised before any input is read. For each of the registered functions the declared minimum number of arguments is enough for its implementation to produce a value and no index beyond the declared maximum is read; a path expression that stops in the middle of a step after a complete step is rejected. No option parser returns Ok unless the reader has reported the end of the option text (--sort-by included). A /name/ reference cut before its closing slash is rejected. The text --sort-by compares with ASC / DESC is the whole remainder after the key expression (through whole-text transformations only), and read_to_eof returns every byte it consumed; every --set is checked, inside the parse loop, against a keyed collection of all --set keys before it and a key found present leads to the DuplicateKeys error.",
     "not_decided": "Completeness of clap's own validation, the wording of messages, and the full grammar of the "
                    "accepted suffixes (--select's `=name`, --sort-by's direction words are validated by value logic "
                    "that unit tests sample).",
